@@ -525,6 +525,8 @@ func propC17(p *Prog, r *Report) {
 	c04WhoMay(p, r, "C17.e")
 	r.Rule("C17.g", "canonical roots: the directory registry cleans every configured root before it is used as a key, stored, or becomes a directory's Root, so that ParseDir(Dir.Path()) gives the same Root back")
 	c17RootsCanonical(p, r, "C17.g")
+	r.Rule("C17.h", "the registry only names directories that exist: dir.Create updates the registry only after MkdirAll succeeded")
+	c17RegisterAfterMkdir(p, r, "C17.h")
 	c17Clamp(p, r)
 }
 
